@@ -227,8 +227,10 @@ func (ch *CloudHandler) prepareMetricQueue(source gostatsd.Source) *gostatsd.Met
 	}
 	if len(ch.awaitingEvents[source]) == 0 {
 		ch.toLookupIPs = append(ch.toLookupIPs, source)
-		ch.statsMetricHostsQueued++
 	}
+	// Counted per type, independently of who requested the lookup: handleInstanceInfo
+	// decrements it whenever metrics were waiting for the host.
+	ch.statsMetricHostsQueued++
 	queue := gostatsd.NewMetricMap(false)
 	ch.awaitingMetrics[source] = queue
 	return queue
@@ -252,9 +254,12 @@ func (ch *CloudHandler) handleIncomingMetrics(mm *gostatsd.MetricMap) {
 func (ch *CloudHandler) handleIncomingEvent(e *gostatsd.Event) {
 	queue := ch.awaitingEvents[e.Source]
 	ch.awaitingEvents[e.Source] = append(queue, e)
-	if len(queue) == 0 && ch.awaitingMetrics[e.Source] == nil {
-		// This is the first event for that IP in the queue. Need to fetch an Instance for this IP.
-		ch.toLookupIPs = append(ch.toLookupIPs, e.Source)
+	if len(queue) == 0 {
+		if ch.awaitingMetrics[e.Source] == nil {
+			// This is the first item for that IP in the queue. Need to fetch an Instance for this IP.
+			ch.toLookupIPs = append(ch.toLookupIPs, e.Source)
+		}
+		// This is the first event for that IP in the queue, handleInstanceInfo will decrement it.
 		ch.statsEventHostsQueued++
 	}
 	ch.statsEventItemsQueued++
